@@ -1007,6 +1007,42 @@ theorem topKey_spec_m (mp : Str → Int) (k : Tag) (hk : TopKeyOk k) :
     subst this
     simp [tagOf, hostI, Tag.isEmpty, Tag.normalize, mapTag, mapStr, hi]
 
+/-- **every string-top key survives the transfer as the same key — no sign hypothesis.**  Take ANY tag with I ≠ 0 or
+    S ≠ "" (I is a full int32: raw tag values may be negative, e.g. −1 or MinInt32).  The agent stores it normalized
+    (`MapStringTop`), keepF sends (stag, tag-if-I≠0), the handler rewrites a mapped string, and MapStringTopBytes on the
+    aggregator recovers a non-empty key equal to the agent's key with a mapped string replaced by its id.  An integer key
+    is never touched by the mapping, whatever its sign. -/
+theorem top_key_survives (mp : Str → Int) (k : Tag) (hk : k.i ≠ 0 ∨ k.s ≠ []) :
+    (tagOf (mapTLTop mp (⟨k.normalize.s, hostI k.normalize, (TLValue.empty : TLValue α)⟩ : TLTop α)).tag
+        (some (mapTLTop mp (⟨k.normalize.s, hostI k.normalize, (TLValue.empty : TLValue α)⟩ : TLTop α)).stag)).isEmpty = false ∧
+    (tagOf (mapTLTop mp (⟨k.normalize.s, hostI k.normalize, (TLValue.empty : TLValue α)⟩ : TLTop α)).tag
+        (some (mapTLTop mp (⟨k.normalize.s, hostI k.normalize, (TLValue.empty : TLValue α)⟩ : TLTop α)).stag)).normalize =
+      mapTag mp k.normalize ∧
+    (k.i ≠ 0 → mapTag mp k.normalize = ⟨k.i, []⟩) := by
+  have hne : k.isEmpty = false := by
+    obtain ⟨i, s⟩ := k
+    rcases hk with h | h
+    · simp [Tag.isEmpty, h]
+    · cases s with
+      | nil => exact absurd rfl h
+      | cons c cs => simp [Tag.isEmpty]
+  have hok := normalize_ok k hne
+  obtain ⟨h1, h2⟩ := topKey_spec_m mp k.normalize hok
+  refine ⟨h1, h2, ?_⟩
+  intro hi
+  obtain ⟨i, s⟩ := k
+  simp only at hi
+  simp [Tag.normalize, hi, mapTag]
+
+/-- negative raw int32 top keys (−1, MinInt32) and a positive one: sent with their tag, recovered unchanged -/
+example : (tagOf (hostI ⟨-1, []⟩) (some [])).normalize = ⟨-1, []⟩ ∧ (tagOf (hostI ⟨-1, []⟩) (some [])).isEmpty = false ∧
+    (tagOf (hostI ⟨-2147483648, []⟩) (some [])).normalize = ⟨-2147483648, []⟩ ∧
+    hostI ⟨-1, []⟩ = some (-1) ∧ hostI ⟨-2147483648, []⟩ = some (-2147483648) ∧ hostI ⟨41, []⟩ = some 41 := by decide
+
+/-- what the seeded change `if key.I > 0 { SetTag }` would do: without the tag the aggregator sees an EMPTY key and
+    MergeWithTLMultiItem folds the entry into Tail (`mergeTopElem`, first branch) -/
+example : (tagOf (none : Option Int) (some [])).isEmpty = true := by decide
+
 /-- the string-top entry an aggregator with mappings must hold -/
 def expectedTopM (mp : Str → Int) (sf : α) (h : Tag) (pct : Bool) (cents : Tag → List (Centroid α))
     (kv : Tag × MultiValue α) : Tag × MultiValue α :=
